@@ -327,6 +327,7 @@ func (s *Stream) WriteSCTP(payload []byte, ppi PayloadProtocolIdentifier) (int, 
 	useInterleaving := s.association.useInterleaving
 	chunks, unordered := s.packetize(payload, ppi)
 	n := len(payload)
+	vfYield(s.association, vfSiteAfterPacketize)
 	err := s.association.sendPayloadData(s.writeDeadline, chunks)
 	if err != nil { //nolint:nestif
 		s.lock.Lock()
@@ -535,6 +536,7 @@ func (s *Stream) onBufferReleased(nBytesReleased int) {
 	if s.onBufferedAmountLow != nil && fromAmount > s.bufferedAmountLow && s.bufferedAmount <= s.bufferedAmountLow {
 		f := s.onBufferedAmountLow
 		s.lock.Unlock()
+		vfYield(s.association, vfSiteBeforeCallback)
 		f()
 
 		return
